@@ -139,6 +139,28 @@ def agree(ctx, ip, label, a, b, oa, ob, out_a, out_b, la, lb, G):
                "with matching inputs transcript field %d differs between the two ends: %s vs %s" % (i, show(ta, maxdepth=5), show(tb, maxdepth=5)))
 
 
+def session_totality(ctx, world, ev):
+    """'For all passwords, identities and scalars': with byte-string inputs the constructor and
+    start() have no raising path, and finish() on a message carrying the peer's side byte can only
+    return a key or raise ReflectionThwarted (decoding failures are the group's business, C05)."""
+    from .c06 import PEER
+    for cname in session.PUBLIC_CLASSES:
+        for cm in session.models(world, ev, cname):
+            bad = sorted({str(o.exc) for o in cm.ctor if o.kind == "raise"})
+            ctx.ob("T-ctor", cname, not bad, "construction cannot raise for byte-string inputs" if not bad else
+                   "the constructor raises %s for some inputs" % bad, next((o.site for o in cm.ctor if o.kind == "raise"), None))
+            bad = sorted({str(o.exc) for o in cm.start if o.kind == "raise"})
+            ctx.ob("T-start", cname, not bad and bool(cm.started), "start() cannot raise on a fresh instance" if not bad else
+                   "start() raises %s for some inputs" % bad, next((o.site for o in cm.start if o.kind == "raise"), None))
+            for s in cm.started:
+                msg = mk_app("cat", (Const(PEER[cname]), Sym("payload", "bytes")))
+                outs = ev.run_method(cm.obj, "finish", [msg], st=s.state.fork())
+                bad = sorted({str(o.exc) for o in outs if o.kind == "raise" and o.exc != "ReflectionThwarted"})
+                ctx.ob("T-finish", cname, not bad and bool(session.rets(outs)),
+                       "finish(peer-labelled message) returns a key or raises ReflectionThwarted, nothing else" if not bad else
+                       "finish() raises %s for some matching inputs" % bad, next((o.site for o in outs if o.kind == "raise" and o.exc != "ReflectionThwarted"), None))
+
+
 def ed_totality(ctx, world, ev0):
     """(e) On the real Ed25519 group with subgroup-kind parameter elements, no operation of
     start()/finish() can raise inside the element arithmetic and no result is of unknown kind."""
@@ -210,6 +232,7 @@ def check(ctx, world):
     ev = session.new_ev(world)
     algebra(ctx, world, ev, (("SPAKE2_A", "A"), ("SPAKE2_B", "B")), "A<->B")
     algebra(ctx, world, ev, (("SPAKE2_Symmetric", "1"), ("SPAKE2_Symmetric", "2")), "S<->S")
+    session_totality(ctx, world, ev)
     ed_totality(ctx, world, ev)
     # (d) restored instances: the composition check of C08
     from . import c08
